@@ -185,7 +185,7 @@ def make_graph(rng, world=None, nv=None, ne=None, fix="first", custom=True, well
             c = z.COMPACT_DIMENSIONALITY
             if mn:
                 z = z + np.array([rng.gauss(0, mn) for _ in range(c)])
-            edges.append(dict(kind="odometry", vids=[verts[idx_of[a]]["id"], verts[idx_of[b]]["id"]], est_cls=pose_t, est=np.asarray(z).tolist(), info=spd(rng, c, cross).tolist()))
+            edges.append(dict(kind="odometry", vids=[verts[idx_of[a]]["id"], verts[idx_of[b]]["id"]], est_cls=pose_t, est=np.asarray(z).tolist(), info=spd(rng, c, cross and rng.random() >= 0.15).tolist()))
         for k in range(n_pose, n_pose + n_land):
             for _ in range(rng.randrange(1, 3)):
                 a = rng.choice(pose_idx)
@@ -198,7 +198,7 @@ def make_graph(rng, world=None, nv=None, ne=None, fix="first", custom=True, well
                 c = z.COMPACT_DIMENSIONALITY
                 if mn:
                     z = z + np.array([rng.gauss(0, mn) for _ in range(c)])
-                edges.append(dict(kind="landmark", vids=[verts[idx_of[a]]["id"], verts[idx_of[k]]["id"]], est_cls=point_t, est=np.asarray(z).tolist(), off_cls=pose_t, off=off_vals, off_id=rng.randrange(0, 5), info=spd(rng, c, cross).tolist()))
+                edges.append(dict(kind="landmark", vids=[verts[idx_of[a]]["id"], verts[idx_of[k]]["id"]], est_cls=point_t, est=np.asarray(z).tolist(), off_cls=pose_t, off=off_vals, off_id=rng.randrange(0, 5), info=spd(rng, c, cross and rng.random() >= 0.15).tolist()))
         if w in ("r2", "r3") and rng.random() < 0.5 and n_pose >= 2:
             # point-to-point landmark edges with offsets
             for _ in range(rng.randrange(1, 3)):
@@ -207,7 +207,7 @@ def make_graph(rng, world=None, nv=None, ne=None, fix="first", custom=True, well
                 pa, off, l = mk_pose(pose_t, truth[a][1]), mk_pose(pose_t, off_vals), mk_pose(pose_t, truth[b][1])
                 z = (pa + off).inverse + l
                 c = z.COMPACT_DIMENSIONALITY
-                edges.append(dict(kind="landmark", vids=[verts[idx_of[a]]["id"], verts[idx_of[b]]["id"]], est_cls=pose_t, est=np.asarray(z).tolist(), off_cls=pose_t, off=off_vals, off_id=None, info=spd(rng, c, cross).tolist()))
+                edges.append(dict(kind="landmark", vids=[verts[idx_of[a]]["id"], verts[idx_of[b]]["id"]], est_cls=pose_t, est=np.asarray(z).tolist(), off_cls=pose_t, off=off_vals, off_id=None, info=spd(rng, c, cross and rng.random() >= 0.15).tolist()))
         if custom and rng.random() < 0.5:
             for _ in range(rng.randrange(1, 3)):
                 arity = rng.choice([1, 2, 2, 3])
